@@ -99,6 +99,7 @@ func evLine(t *Tracer, lon0, lat0, alt0, lon1, lat1, alt1 float64, H, V int64, s
 	moves := lineWalk(p0.Lon(), p0.Lat(), p0.Alt(), p1.Lon(), p1.Lat(), p1.Alt(), sv, ev)
 	var o string
 	var res any
+	before := pointBits([]*object.Point{p0, p1})
 	op := "Line"
 	if sp {
 		op = "LineSp"
@@ -106,6 +107,7 @@ func evLine(t *Tracer, lon0, lat0, alt0, lon1, lat1, alt1 float64, H, V int64, s
 	} else {
 		o, res = guard(func() (any, error) { return shape.GetExtendedSpatialIdsOnLine(p0, p1, H, V) })
 	}
+	modified := pointBits([]*object.Point{p0, p1}) != before
 	// the voxels of the end points when they are stored once more (known finding D11)
 	retr := [][]int64{{0, 0, 0}, relArr(ev, sv)}
 	if q0, e0 := object.NewPoint(p0.Lon(), p0.Lat(), p0.Alt()); e0 == nil {
@@ -124,6 +126,9 @@ func evLine(t *Tracer, lon0, lat0, alt0, lon1, lat1, alt1 float64, H, V int64, s
 	e.O = o
 	e.Real = map[string]any{"start": ends[0], "end": ends[1]}
 	e.R = []any{}
+	if modified {
+		e.Bad = pointsModified
+	}
 	if o != "ok" {
 		e.Bad = "outcome " + o
 	} else {
